@@ -1,5 +1,5 @@
 // Driver of the C20 correspondence check (copied by harness/props/c20.py into a scratch module
-// next to the CURRENT tools/god/util/{format,stringx} sources).  Thin interpreter: reads one JSON
+// next to the CURRENT tools/god/util/{format,stringx} and tools/god/config sources).  Thin interpreter: reads one JSON
 // case per line from $VERIF_IN ({"t": hex template, "c": hex identifier}), calls the real code,
 // writes one JSON observation per line to $VERIF_OUT.  No expected values are computed here; the
 // only extra output is a tabulation of Go's unicode / x/text data for the non-ASCII runes involved.
@@ -15,6 +15,7 @@ import (
 	"strings"
 	"unicode"
 
+	"c20drv/config"
 	"c20drv/format"
 	"c20drv/stringx"
 
@@ -47,6 +48,15 @@ func callStr(f func() (string, error)) (out res) {
 		return res{"err": kind, "msg": hx(err.Error())}
 	}
 	return res{"ok": hx(s)}
+}
+
+// callCfg is callStr for config.NewConfig: its error is kind 3.
+func callCfg(f func() (string, error)) (out res) {
+	out = callStr(f)
+	if _, ok := out["err"]; ok {
+		out["err"] = 3
+	}
+	return out
 }
 
 func runeTable(tab map[rune][]any, s string) {
@@ -92,12 +102,29 @@ func one(c tc) res {
 		out["rt"] = camel
 	}
 	out["untitle"] = callStr(func() (string, error) { return stringx.From(content).UnTitle(), nil })
+	// the generator's own path: config.NewConfig, then FileNamingFormat on cfg.NamingFormat
+	cfg := callCfg(func() (string, error) {
+		c, err := config.NewConfig(tmpl)
+		if err != nil {
+			return "", err
+		}
+		return c.NamingFormat, nil
+	})
+	out["cfg"] = cfg
+	if h, ok := cfg["ok"].(string); ok {
+		b, _ := hex.DecodeString(h)
+		nf := string(b)
+		out["cfgfmt"] = callStr(func() (string, error) { return format.FileNamingFormat(nf, content) })
+	} else {
+		out["cfgfmt"] = cfg
+	}
 	out["fmt2"] = callStr(func() (string, error) { return format.FileNamingFormat(tmpl, content) })
 
 	// tabulation of library data (not of the code under test)
 	tab := map[rune][]any{}
 	runeTable(tab, "\uFFFD")
 	runeTable(tab, content)
+	runeTable(tab, tmpl)
 	runeTable(tab, camelStr)
 	keys := make([]int, 0, len(tab))
 	for r := range tab {
